@@ -115,3 +115,20 @@ PROPS["C20"] = dict(
     ],
     assumptions=["64-bit target", "format_shortest returns ASCII digits (checked on every generated double)"],
 )
+
+PROPS["C14"] = dict(
+    level="proof",
+    runs=[dict(bin="c14")],
+    quick=dict(n=1500, shards=16),
+    thorough=dict(n=40000, shards=64, run_timeout=3000, coq_case_timeout=3000),
+    trusted_base=[
+        "model coq/C14/Model.v of order_by/cmp_bindings_with (exec.rs), sparql_cmp/sparql_order_by/order_by_class (expression.rs), SparqlValue::partial_cmp/order_by_class/order_by_cmp (value.rs), SparqlNumber coercing comparison and exact_cmp (_number.rs), XsdDateTime partial_cmp/timeline_cmp (hand-written); Term::cmp from Common/Term.v (C02)",
+        "lexical form -> value (Rust integer/float parsers, BigDecimal, dateTime regex + chrono) is not modelled: each pool term is given to the model with the value the implementation parsed (Debug rendering of ResultTerm::value())",
+        "slice::sort_unstable_by returns a sorted permutation when the comparator is a total preorder (std contract); the harness checks permutation + sortedness of every output",
+        "independent oracle in c14.rs: SPARQL '<' from XSD lexical forms (exact decimal strings, promotion by Rust's correctly rounded str->f64/f32, XSD dateTime partial order)",
+    ],
+    assumptions=[
+        "integer/decimal -> f64/f32 conversions used by the operator '<' never cross a number of the target format (conv_ok; holds for IEEE round-to-nearest; not proved for `as f64`, BigInt::to_f64, BigDecimal::to_f64)",
+        "terms are well-formed (C02) and a parsed value is only attached to a literal",
+    ],
+)
